@@ -14,7 +14,7 @@ Local Arguments has_fst : simpl never.
 Local Arguments pair_eqb : simpl never.
 
 Ltac wsimpl := cbn [w_led w_funcs w_active w_delayed w_pending w_zombie w_running w_starting w_hdl w_auto w_next w_log
-                    set_led led_log set_active set_delayed set_pending set_zombie set_running set_starting set_hdl set_auto fst snd
+                    set_led led_log set_active set_delayed set_pending set_zombie set_running set_starting set_hdl set_auto set_next fst snd
                     l_state l_event l_bus l_tasks l_reap l_svc set_state set_evbus set_tasks set_reap set_svc] in *.
 
 (* ============================================================================================== *)
